@@ -69,15 +69,20 @@ func streamFromBucket(bucket, streamInBucket int) int {
 func (s *IDGenerator) GetStream() (int, bool) {
 	// based closely on the java-driver stream ID generator
 	// avoid false sharing subsequent requests.
+	yield(1)
 	offset := atomic.LoadUint32(&s.offset)
+	yield(2)
 	for !atomic.CompareAndSwapUint32(&s.offset, offset, (offset+1)%s.numBuckets) {
+		yield(1)
 		offset = atomic.LoadUint32(&s.offset)
+		yield(2)
 	}
 	offset = (offset + 1) % s.numBuckets
 
 	for i := uint32(0); i < s.numBuckets; i++ {
 		pos := int((i + offset) % s.numBuckets)
 
+		yield(3)
 		bucket := atomic.LoadUint64(&s.streams[pos])
 		if bucket == math.MaxUint64 {
 			// all streams in use
@@ -87,10 +92,13 @@ func (s *IDGenerator) GetStream() (int, bool) {
 		for j := 0; j < bucketBits; j++ {
 			mask := uint64(1 << streamOffset(j))
 			for bucket&mask == 0 {
+				yield(4)
 				if atomic.CompareAndSwapUint64(&s.streams[pos], bucket, bucket|mask) {
+					yield(5)
 					atomic.AddInt32(&s.inuseStreams, 1)
 					return streamFromBucket(int(pos), j), true
 				}
+				yield(6)
 				bucket = atomic.LoadUint64(&s.streams[pos])
 			}
 		}
@@ -134,6 +142,7 @@ func (s *IDGenerator) String() string {
 
 func (s *IDGenerator) Clear(stream int) (inuse bool) {
 	offset := bucketOffset(stream)
+	yield(7)
 	bucket := atomic.LoadUint64(&s.streams[offset])
 
 	mask := uint64(1) << streamOffset(stream)
@@ -142,15 +151,19 @@ func (s *IDGenerator) Clear(stream int) (inuse bool) {
 		return false
 	}
 
+	yield(8)
 	for !atomic.CompareAndSwapUint64(&s.streams[offset], bucket, bucket & ^mask) {
+		yield(9)
 		bucket = atomic.LoadUint64(&s.streams[offset])
 		if bucket&mask != mask {
 			// already cleared
 			return false
 		}
+		yield(8)
 	}
 
 	// TODO: make this account for 0 stream being reserved
+	yield(10)
 	if atomic.AddInt32(&s.inuseStreams, -1) < 0 {
 		// TODO(zariel): remove this
 		panic("negative streams inuse")
